@@ -456,7 +456,58 @@ def rule_ids(ctx):
         ctx.ob(f"{q.split('.')[-3]}.{q.split('.')[-2]}: serializer table keyed by RAWSOCKET_SERIALIZER_ID", okk, "key changed", fn.loc())
 
 
+def rule_remainder(ctx):
+    """Octets arriving behind the 4-octet handshake (same read or a later one) reach the frame parser exactly once, in order."""
+    from ..core.terms import TermEval, show
+    ctx.rule("C13.8-octets-behind-the-handshake")
+    p = ctx.program
+    sites = [(f"{AIO}.RawSocketProtocol.data_received", "self._buffer", "data_received"),
+             (f"{TW}.WampRawSocketServerProtocol.dataReceived", "self._handshake_bytes", "dataReceived"),
+             (f"{TW}.WampRawSocketClientProtocol.dataReceived", "self._handshake_bytes", "dataReceived")]
+    for q, buf, meth in sites:
+        fn = p.func(q)
+        ctx.analysed(fn)
+        te = TermEval(p, fn, inline=lambda c, f: None).run()
+        D = ("p", fn.params()[1])
+        B = ("attr", ("p", "self"), buf.split(".")[1])
+        R = ("op", "-", ("c", 4), ("call", ("g", "len"), (B,), ()))
+        acc = ("op", "+", B, D)
+        form_a = ("slice", acc, ("c", 4), ("c", None))
+        form_b = ("slice", D, R, ("c", None))
+        # calls that forward octets to a data-received method (own or base class)
+        fwd = []
+        for conds, t, st in te.effects:
+            if (t[0] == "call" and t[1][0] == "g" and t[1][1].endswith("." + meth)) or (t[0] == "m" and t[2] == meth):
+                fwd.append((conds, t, st))
+        for o in te.outcomes:
+            t = o.term
+            if o.kind == "return" and ((t[0] == "call" and t[1][0] == "g" and t[1][1].endswith("." + meth)) or (t[0] == "m" and t[2] == meth)):
+                fwd.append((o.conds, t, o.node))
+        ctx.require(len(fwd) == 2, f"{q}: expected the established-path and the handshake-path hand-off, found {len(fwd)}")
+        name = q.split(".")[-2]
+        for conds, t, st in fwd:
+            arg = (t[2] if t[0] == "call" else t[3])[-1]
+            established = any(pl for c, pl in conds if c[0] == "attr" and c[2] in ("_handshake_done", "_handshake_complete"))
+            if established:
+                ctx.ob(f"{name}: after the handshake every chunk goes to the frame parser unchanged", arg == D, f"forwards {show(arg)[:80]}", fn.loc(st))
+                continue
+            ok = arg == form_a
+            if arg == form_b:
+                # the consumed prefix must be the complementary slice of the same chunk
+                stored = te.env.get(buf)
+                ok = stored is not None and any(x == ("op", "+", B, ("slice", D, ("c", None), R)) for x in _subterms13(stored))
+            ctx.ob(f"{name}: octets behind the 4 handshake octets are taken from the accumulated stream (nothing lost or repeated under any read split)", ok,
+                   f"forwards {show(arg)[:120]}: with a handshake split across reads the wrong slice reaches the frame parser (messages pipelined behind the "
+                   f"handshake are lost or misframed)", fn.loc(st))
+
+
+def _subterms13(t):
+    from ..core.terms import subterms
+    return subterms(t)
+
+
 def run(ctx):
+    rule_remainder(ctx)
     rule_handshake_tables(ctx)
     rule_requests(ctx)
     rule_abort_siblings(ctx)
